@@ -130,7 +130,7 @@ def main():
                     for (n, v) in o[key]["n"]:
                         diff = pl[n] - exact.cplx(v)
                         exp = mp.mpf(beta) * exact.cplx(o["aveA"]) * exact.cplx(o["aveB"]) if n == 0 else 0
-                        if abs(diff - exp) > 1e-10 * (1 + abs(exp)):
+                        if not (abs(diff - exp) <= 1e-10 * (1 + abs(exp))):
                             c.violation("model %s beta=%s: plain - %s at W_%d for %s is %s, expected %s" % (desc, beta, key, n, o["q"], mp.nstr(diff, 12), mp.nstr(exp, 12)),
                                         dict(rep, quad=o["q"], n=n, mode=key), cls="subtraction")
                             ok = False
